@@ -1,0 +1,174 @@
+//go:build verif
+
+package textfield
+
+/*@
+-- ------------------------------------------------------------------ TextField (C17)
+-- Grapheme segmentation is outside the module (rivo/uniseg). FirstGraphemeClusterInString is taken as a pure
+-- split of a non-empty string into a non-empty first cluster and the rest (ASSUMED; the state argument only
+-- carries what the previous call already knew, so it does not change the result).
+ufun gfirst(s string) string
+ufun grest(s string) string
+extern func github.com/rivo/uniseg.FirstGraphemeClusterInString(str, state)
+  ensures result0 == gfirst(str) && result1 == grest(str) && result2 >= 0
+  ensures len(str) > 0 ==> (len(result0) > 0 && len(result1) == len(str) - len(result0))
+
+-- strings.Builder: its content as a ghost field (ASSUMED to be what WriteString/String do)
+ghost bld(b *strings.Builder) string
+extern func (*strings.Builder).WriteString(b, s)
+  sets bld(b) = bld(b) + s
+extern func (*strings.Builder).String(b)
+  ensures result == bld(b)
+
+-- the text as a sequence of grapheme clusters
+rec gcount(v string) int = (len(v) <= 0) ? 0 : 1 + gcount(grest(v))
+rec gdrop(v string, k int) string = (k <= 0) ? v : grest(gdrop(v, k - 1))
+rec gtake(v string, k int) string = (k <= 0) ? "" : gtake(v, k - 1) + gfirst(gdrop(v, k - 1))
+-- the first k clusters of v without cluster number c
+rec gskip(v string, c int, k int) string =
+    (k <= 0) ? "" : ((k - 1 == c) ? gskip(v, c, k - 1) : gskip(v, c, k - 1) + gfirst(gdrop(v, k - 1)))
+
+pred TFInv(tf *TextField) = tf.n == gcount(tf.Value) && tf.cursor <= tf.n
+
+func graphemeCountInString(s string) uint
+  unfold gcount
+  loop 1 invariant sum: count + gcount(rest) == gcount(s) && count >= 0 && count + len(rest) <= len(s) && len(rest) >= 0
+  loop 1 decreases len(rest)
+  ensures C17_count: result == gcount(s)
+  modifies nothing
+@*/
+
+/*@
+-- The ideal line editor over grapheme clusters, one operation at a time. Every operation re-establishes TFInv
+-- (cached count exact, cursor inside the text); over a history of operations this is the whole-history statement.
+
+func (tf *TextField) recount()
+  modifies tf.n, tf.cursor
+  ensures C17_inv: TFInv(tf)
+  ensures C17_cursor: tf.cursor == min(old(tf.cursor), gcount(tf.Value))
+
+func (tf *TextField) Reset()
+  modifies tf.n, tf.Value, tf.cursor
+  unfold gcount
+  ensures C17_inv: TFInv(tf)
+  ensures C17_empty: len(tf.Value) == 0 && tf.cursor == 0 && tf.n == 0
+
+func (tf *TextField) CursorTo(i uint) vxfw.Command
+  requires inv: TFInv(tf)
+  modifies tf.cursor
+  ensures C17_inv: TFInv(tf)
+  -- moves by whole graphemes and stops at the end
+  ensures C17_cursor: tf.cursor == min(i, tf.n) && tf.Value == old(tf.Value)
+
+-- delete the grapheme at the cursor: the text without cluster number `cursor`, cursor where it was
+func (tf *TextField) DeleteCharRightOfCursor() vxfw.Command
+  requires inv: TFInv(tf)
+  modifies tf.Value, tf.n, tf.cursor
+  unfold gcount, gdrop, gskip
+  loop 1 invariant walk: rest == gdrop(old(tf.Value), i) && i + gcount(rest) == old(tf.n) && bld(next) == gskip(old(tf.Value), old(tf.cursor), i)
+                      && len(rest) >= 0 && i + len(rest) <= len(old(tf.Value)) && tf.cursor == old(tf.cursor) && tf.n == old(tf.n) && tf.Value == old(tf.Value)
+  loop 1 decreases len(rest)
+  ensures C17_inv: TFInv(tf)
+  ensures C17_text: old(tf.cursor) < old(tf.n) ? tf.Value == gskip(old(tf.Value), old(tf.cursor), old(tf.n)) : tf.Value == old(tf.Value)
+  ensures C17_cursor: tf.cursor == min(old(tf.cursor), tf.n)
+
+-- delete the grapheme before the cursor: the text without cluster number cursor-1, cursor one to the left
+func (tf *TextField) DeleteCharLeftOfCursor() vxfw.Command
+  requires inv: TFInv(tf)
+  modifies tf.Value, tf.n, tf.cursor
+  unfold gcount, gdrop, gskip
+  loop 1 invariant walk: rest == gdrop(old(tf.Value), i) && i + gcount(rest) == old(tf.n) && bld(next) == gskip(old(tf.Value), old(tf.cursor) - 1, i)
+                      && len(rest) >= 0 && i + len(rest) <= len(old(tf.Value)) && tf.cursor == old(tf.cursor) && tf.n == old(tf.n) && tf.Value == old(tf.Value)
+  loop 1 decreases len(rest)
+  ensures C17_inv: TFInv(tf)
+  ensures C17_text: old(tf.cursor) > 0 ? tf.Value == gskip(old(tf.Value), old(tf.cursor) - 1, old(tf.n)) : tf.Value == old(tf.Value)
+  ensures C17_cursor: old(tf.cursor) > 0 ? tf.cursor == min(old(tf.cursor) - 1, tf.n) : tf.cursor == 0
+
+-- delete to the end of the line: the first `cursor` clusters remain
+func (tf *TextField) DeleteCursorToEndOfLine() vxfw.Command
+  requires inv: TFInv(tf)
+  modifies tf.Value, tf.n, tf.cursor
+  unfold gcount, gdrop, gtake
+  loop 1 invariant walk: rest == gdrop(old(tf.Value), i) && i + gcount(rest) == old(tf.n) && i <= old(tf.cursor) && bld(next) == gtake(old(tf.Value), i)
+                      && len(rest) >= 0 && i + len(rest) <= len(old(tf.Value)) && tf.cursor == old(tf.cursor) && tf.n == old(tf.n) && tf.Value == old(tf.Value)
+  loop 1 decreases len(rest)
+  ensures C17_inv: TFInv(tf)
+  ensures C17_text: old(tf.cursor) < old(tf.n) ? tf.Value == gtake(old(tf.Value), old(tf.cursor)) : tf.Value == old(tf.Value)
+  ensures C17_cursor: tf.cursor == min(old(tf.cursor), tf.n)
+@*/
+
+/*@
+-- insertion: every inserted character appears exactly once, at the cursor; the cursor ends after the inserted text
+-- (or at the end of the text, should the inserted clusters have merged with their neighbours)
+func (tf *TextField) insertStringAtCursor(s string)
+  requires inv: TFInv(tf)
+  modifies tf.Value, tf.cursor
+  unfold gcount, gdrop, gtake
+  loop 1 invariant walk: rest == gdrop(old(tf.Value), i) && i + gcount(rest) == old(tf.n) && i <= old(tf.cursor) && bld(next) == gtake(old(tf.Value), i)
+                      && len(rest) >= 0 && i + len(rest) <= len(old(tf.Value)) && tf.cursor == old(tf.cursor) && tf.n == old(tf.n) && tf.Value == old(tf.Value)
+                      && count == gcount(s)
+  loop 1 decreases len(rest)
+  ensures C17_text: tf.Value == (gtake(old(tf.Value), old(tf.cursor)) + s) + gdrop(old(tf.Value), old(tf.cursor))
+  ensures C17_cursor: tf.cursor == (old(tf.cursor) + gcount(s)) % 18446744073709551616 && tf.n == old(tf.n)
+
+func (tf *TextField) InsertStringAtCursor(s string) vxfw.Command
+  requires inv: TFInv(tf)
+  modifies tf.Value, tf.cursor, tf.n
+  ensures C17_inv: TFInv(tf)
+  ensures C17_text: tf.Value == (gtake(old(tf.Value), old(tf.cursor)) + s) + gdrop(old(tf.Value), old(tf.cursor))
+  ensures C17_cursor: tf.cursor == min((old(tf.cursor) + gcount(s)) % 18446744073709551616, tf.n)
+@*/
+
+/*@
+-- callbacks: every call of OnChange / OnSubmit is recorded (ghost logs `changes`, `submits`) with the line it was
+-- given; the callbacks themselves are ASSUMED not to touch the field
+logfield TextField.OnChange changes
+logfield TextField.OnSubmit submits
+
+-- the change callback fires exactly when the value differs from what it was before the edit, with the new value
+func (tf *TextField) checkChanged(cmd vxfw.Command, pre string) (vxfw.Command, error)
+  modifies nothing
+  ensures C17_change: (tf.Value != pre && ref(tf.OnChange) != 0)
+        ? (loglen("changes") == old(loglen("changes")) + 1 && logat("changes", old(loglen("changes"))) == boxed(tf.Value))
+        : loglen("changes") == old(loglen("changes"))
+@*/
+
+/*@
+-- key dispatch: whatever the event, the field stays a well-formed editor state; the change callback fires exactly
+-- when the value changed (with the new value) and the submit callback exactly when Enter is handled, with the
+-- line as it was, after which the field is empty
+func (tf *TextField) HandleEvent(ev vaxis.Event, ph vxfw.EventPhase) (vxfw.Command, error)
+  requires inv: TFInv(tf)
+  requires key: typeis(ev, "vaxis.Key") ==> MaskOK(unbox(ev, "vaxis.Key").Modifiers)
+  ensures C17_inv: TFInv(tf)
+  ensures C17_changes: loglen("changes") == old(loglen("changes")) || loglen("changes") == old(loglen("changes")) + 1
+  ensures C17_change: (loglen("changes") == old(loglen("changes")) + 1) ==>
+        (tf.Value != old(tf.Value) && logat("changes", old(loglen("changes"))) == boxed(tf.Value))
+  -- (handling Enter empties the field without a change notification; that is the only silent change)
+  ensures C17_nochange: (loglen("changes") == old(loglen("changes")) && ref(tf.OnChange) != 0) ==>
+        (tf.Value == old(tf.Value) || (len(tf.Value) == 0 && tf.cursor == 0 && tf.n == 0))
+  ensures C17_submit: (loglen("submits") == old(loglen("submits")) + 1) ==>
+        (logat("submits", old(loglen("submits"))) == boxed(old(tf.Value)) && len(tf.Value) == 0 && tf.cursor == 0)
+  ensures C17_submits: loglen("submits") == old(loglen("submits")) || loglen("submits") == old(loglen("submits")) + 1
+
+-- the drawn cursor column is the display width of the characters before the cursor (while that fits 16 bits)
+-- x reduced to 16 bits (what a uint16 column counter holds)
+pred u16(x int) int = ((x % 65536) + 65536) % 65536
+rec wsum(cs []vaxis.Character, k int) int = (k <= 0) ? 0 : wsum(cs, k - 1) + cs[k-1].Width
+
+func (tf *TextField) Draw(ctx vxfw.DrawContext) (vxfw.Surface, error)
+  requires chars: ref(ctx.Characters) != 0
+  unfold wsum
+  loop 1 invariant col: -1 <= rangeindex && rangeindex < len(chars) && i == rangeindex + 1 && SurfaceWF(s) && s.Cursor != nil
+                     && col == u16(wsum(chars, rangeindex + 1))
+                     && (tf.cursor >= 1 && tf.cursor <= i ==> s.Cursor.Col == u16(wsum(chars, tf.cursor)))
+                     && ((tf.cursor == 0 || tf.cursor > i) ==> s.Cursor.Col == 0)
+  exit 2 assert C17_col: s.Cursor != nil && s.Cursor.Row == 0
+        && s.Cursor.Col == u16(wsum(chars, min(tf.cursor, len(chars))))
+@*/
+
+/*@
+func New() *TextField
+  unfold gcount
+  ensures C17_inv: result != nil && TFInv(result) && len(result.Value) == 0
+@*/
